@@ -33,6 +33,10 @@ def innerStarts : List Range → List UInt64
   | _ :: rest => rest.map (·.start)
   | [] => []
 
+/-- a chunk is a closed, non-degenerate interval -/
+def properChunk (ch : Range) : Bool :=
+  match ch.stop with | some ce => decide (ch.start < ce) | none => false
+
 /-- structural clauses of C19's Split statement -/
 def splitShape (r : Range) (c : UInt64) (cs : List Range) : Bool :=
   match r.stop with
@@ -43,7 +47,7 @@ def splitShape (r : Range) (c : UInt64) (cs : List Range) : Bool :=
     contiguous cs &&
     (innerStarts cs).all (fun b => b % c == 0) &&
     cs.all (fun ch => ch.exS == r.exS && ch.exE == r.exE) &&
-    cs.all (fun ch => match ch.stop with | some ce => decide (ch.start < ce) | none => false)
+    cs.all properChunk
 
 /-- points at which union-of-chunks = range is sampled by the *monitor* (the theorem is for all n) -/
 def probePoints (r : Range) (cs : List Range) : List UInt64 :=
